@@ -10,6 +10,7 @@ import (
 	"github.com/go-openapi/analysis/internal/flatten/replace"
 	"github.com/go-openapi/analysis/internal/flatten/schutils"
 	"github.com/go-openapi/analysis/internal/flatten/sortref"
+	"github.com/go-openapi/jsonpointer"
 	"github.com/go-openapi/spec"
 	"github.com/go-openapi/swag"
 )
@@ -35,14 +36,15 @@ func (isn *InlineSchemaNamer) Name(key string, schema *spec.Schema, aschema *Ana
 		// create unique name
 		mangle := mangler(isn.opts)
 		newName, isOAIGen := uniqifyName(isn.Spec.Definitions, mangle(name))
+		// with KeepNames, the name may hold characters that are special in a JSON pointer
+		defRef := spec.MustCreateRef(path.Join(definitionsPath, jsonpointer.Escape(newName)))
 
 		// clone schema
 		sch := schutils.Clone(schema)
 
 		// replace values on schema
 		debugLog("rewriting schema to ref: key=%s with new name: %s", key, newName)
-		if err := replace.RewriteSchemaToRef(isn.Spec, key,
-			spec.MustCreateRef(path.Join(definitionsPath, newName))); err != nil {
+		if err := replace.RewriteSchemaToRef(isn.Spec, key, defRef); err != nil {
 			return ErrInlineDefinition(newName, err)
 		}
 
@@ -61,15 +63,14 @@ func (isn *InlineSchemaNamer) Name(key string, schema *spec.Schema, aschema *Ana
 				isn.opts.flattenContext.warnings = append(isn.opts.flattenContext.warnings, r.Warnings...)
 			}
 
-			if r.Ref.String() != key && (r.Ref.String() != path.Join(definitionsPath, newName) || path.Dir(v.String()) == definitionsPath) {
+			if r.Ref.String() != key && (r.Ref.String() != defRef.String() || path.Dir(v.String()) == definitionsPath) {
 				continue
 			}
 
 			debugLog("found a $ref to a rewritten schema: %s points to %s", k, v.String())
 
 			// rewrite $ref to the new target
-			if err := replace.UpdateRef(isn.Spec, k,
-				spec.MustCreateRef(path.Join(definitionsPath, newName))); err != nil {
+			if err := replace.UpdateRef(isn.Spec, k, defRef); err != nil {
 				return err
 			}
 		}
